@@ -1,7 +1,10 @@
 //! rust-elf bounded-exhaustive checker. See /verif/DESIGN.md.
 #![allow(dead_code)]
 mod alloc;
+mod driver;
 mod framework;
+mod lattice;
+mod skeleton;
 mod props;
 mod util;
 
